@@ -3,7 +3,31 @@
    get_children_of_type and of the `parent` assignment of process_node).  Hypotheses:
      uniq root            the model objects of the containment tree have distinct identities (Python id())
      no_parent_attr root  no grammar attribute is called `parent` (outside: known finding, see *_refuted) *)
-From TxV Require Import Core.Base Model.Nav Proofs.NavProofs.
+From TxV Require Import Core.Base Gen.SrcNav Model.Nav Model.NavSrc Proofs.NavProofs Proofs.NavSrcProofs.
+
+(* Tie to the source (Gen/SrcNav.v is regenerated from textx/model.py on every run): the entry of
+   parser._inst_stack that process_node assigns to `parent` is the top of the stack — the instance
+   that was being built when this node was entered — and nothing when the stack is empty; the
+   assignment happens after the children were processed and the node was popped; and the model's
+   parent assignment is that function. *)
+Theorem C05_src_parent :
+  (forall top rest, src_parent_of_stack (top :: rest) = Some top) /\
+  src_parent_of_stack [] = None /\
+  (src_parent_tuple_index = src_stack_entry_inst_pos /\ src_parent_guard_nonempty = true /\ src_parent_after_pop = true) /\
+  (forall stack slots, find_slot s_parent slots = None ->
+     parent_attr stack slots = option_map PObj (src_parent_of_stack stack)).
+Proof.
+  split; [exact src_parent_top|]. split; [exact src_parent_empty|].
+  split; [exact src_stack_facts | exact parent_attr_src].
+Qed.
+Print Assumptions C05_src_parent.
+
+(* get_children descends only under `attr.cont`, and takes the single-value branch exactly for
+   MULT_ONE and MULT_OPTIONAL (the two facts the model's follow_attrs transcribes). *)
+Theorem C05_src_children :
+  src_single_mults = [s_mult_one; s_mult_optional] /\ src_follow_guard = s_attr_cont.
+Proof. exact src_children_facts. Qed.
+Print Assumptions C05_src_children.
 
 (* The root has no parent; every object held by a containment attribute of an object of the
    tree has exactly that object as its parent. *)
@@ -50,6 +74,17 @@ Theorem C05_children_exact : forall sel sf cf root,
   forall o, In o (get_children sel root cf sf) <-> reach sf root o /\ sel o = true.
 Proof. exact get_children_exact. Qed.
 Print Assumptions C05_children_exact.
+
+(* Order: if b is reached from a (a <> b) and both are returned, a comes before b — with
+   children_first, after b. *)
+Theorem C05_children_order : forall sel sf cf root a b,
+  uniq root -> reach sf a b -> a <> b ->
+  In a (get_children sel root cf sf) -> In b (get_children sel root cf sf) ->
+  exists l1 l2 l3,
+    get_children sel root cf sf =
+    if cf then l1 ++ b :: l2 ++ a :: l3 else l1 ++ a :: l2 ++ b :: l3.
+Proof. exact children_order. Qed.
+Print Assumptions C05_children_order.
 
 Theorem C05_children_of_type : forall t sf cf root,
   uniq root ->
